@@ -83,7 +83,17 @@ inline schema_t random_schema(rng_t& r, const schema_opts_t& o)
         const auto name = "f" + std::to_string(i);
         switch (kind)
         {
-        case 0: s.features.push_back(feature_t{name}.sclass(static_cast<size_t>(r.range(1, o.max_classes)))); break;
+        case 0:
+        {
+            // storage-type boundaries of single-label features (uint8 / uint16) get their share when wide class counts are allowed
+            auto classes = r.range(1, o.max_classes);
+            if (o.max_classes >= 300 && r.coin(0.4))
+            {
+                classes = r.pick<int64_t>({1, 2, 255, 256, 257, 300});
+            }
+            s.features.push_back(feature_t{name}.sclass(static_cast<size_t>(classes)));
+            break;
+        }
         case 1: s.features.push_back(feature_t{name}.mclass(static_cast<size_t>(r.range(1, o.max_classes)))); break;
         case 2: s.features.push_back(feature_t{name}.scalar(random_scalar_type(r, o.all_storage_types))); break;
         default:
